@@ -134,7 +134,9 @@ def run(ctx):
         env = {"DORA_FLAGS": FLAGS[j["fl"]][0], "DORA_VERIF_DEADLOCK": "5000", "DORA_VERIF_STATS": sf}
         if j["perturb"]:
             env["DORA_VERIF_PERTURB"] = j["perturb"]
-        o = execu.run_cmd([exe] + [str(a) for a in j["case"].argv()], timeout=timeout, env=env, affinity=j["aff"])
+        # runs started shortly before the time budget ends get a shorter watchdog, so that stragglers cannot double the wall time
+        tmo = max(30, min(timeout, deadline + 60 - time.time()))
+        o = execu.run_cmd([exe] + [str(a) for a in j["case"].argv()], timeout=tmo, env=env, affinity=j["aff"])
         st = None
         try:
             with open(sf) as f:
@@ -162,7 +164,7 @@ def run(ctx):
         cfg = "%s --gc %s DORA_FLAGS='%s' affinity=%s perturb=%s" % (j["be"], j["gc"], FLAGS[j["fl"]][0], sorted(j["aff"]) if j["aff"] else "all", j["perturb"])
         ctx.count("prog_runs")
         if o.cls == "timeout":
-            ctx.inconc("program level: run watchdog (%ds, no deadlock verdict): %s under %s" % (timeout, c.describe(), cfg))
+            ctx.inconc("program level: run watchdog (%.0fs, no deadlock verdict): %s under %s" % (o.wall, c.describe(), cfg))
             ctx.count("prog_timeouts")
             continue
         if o.cls == "harness_error":
